@@ -65,6 +65,10 @@ class TSock(FakeSock):
                 self.incoming.pop(0)
                 continue
             if it[0] == "chatty":
+                self.chatty = getattr(self, "chatty", 0) + 1
+                if self.chatty > 60:
+                    # the caller keeps reading an endless stream: give up (the elapsed virtual time then exposes the overrun)
+                    raise ConnectionResetError(104, "test server gave up after 60 frames")
                 # expand one period
                 self.incoming.insert(0, it[2])
                 self.incoming.insert(0, ("wait", it[1]))
@@ -247,8 +251,12 @@ def h_timeout(server):
     C, real_time = _install_clock(clock)
     try:
         t = sx.sym_real("t")
-        sx.assume(sx.And(t > 0, t <= 10))
-        if server == "silent":
+        sx.assume(sx.And(t >= 0, t <= 10))
+        if server == "flood0":
+            # timeout=0 means "do not wait": frames that are already buffered must not keep close() reading
+            sx.assume(t == 0)
+            inc = [("chatty", 0, server_frame(1, 2, b"yy"))]
+        elif server == "silent":
             inc = [("silence",)]
         elif server == "answering":
             d = sx.sym_real("d")
@@ -261,7 +269,7 @@ def h_timeout(server):
             inc = [("wait", d), server_frame(1, 2, b"x"), ("wait", e), server_frame(1, 8, b""), "eof"]
         elif server == "chatty":
             delta = sx.sym_real("delta")
-            sx.assume(sx.And(delta * 3 >= t, delta <= 30))
+            sx.assume(sx.And(delta * 3 >= t, delta > 0, delta <= 30))
             inc = [("chatty", delta, server_frame(1, 2, b"yy"))]
         elif server == "eof":
             d = sx.sym_real("d")
@@ -281,6 +289,9 @@ def h_timeout(server):
             sx.require(False, "close() raised %s" % type(e).__name__, server=server)
             return
         sx.require(clock.now - start <= 2 * t, "close(timeout=t) returns within 2t whether or not the server answers", server=server)
+        if server == "flood0":
+            sx.require(getattr(sock, "chatty", 0) <= 2, "close(timeout=0) does not keep consuming a stream of already-buffered frames",
+                       frames=getattr(sock, "chatty", 0))
         sx.require(sock.closed and ws.sock is None, "close() releases the transport", server=server)
         frames = decode_client_frames(sock.wire())
         sx.require(len([f for f in frames if f[2] == 8]) == 1, "close() writes exactly one close frame", server=server)
@@ -306,7 +317,7 @@ def obligations(tier):
                     if any(e in ("eof", "reset", "silence") for e in events[:-1]):
                         continue
                     hist.append(dict(calls=list(calls), events=list(events)))
-    servers = ["silent", "answering", "data-then-close", "chatty", "eof"]
+    servers = ["silent", "answering", "data-then-close", "chatty", "eof", "flood0"]
     return [
         Obligation("H-hist", h_hist, hist,
                    bounds="all sequences of <=%d client calls over {send, recv, ping, close, send_close, shutdown} x all server scripts of <=%d events over "
@@ -316,7 +327,7 @@ def obligations(tier):
                    kernel=["WebSocket.close", "send_close", "shutdown", "send", "ping", "recv_data_frame (close branch)", "_send", "_recv",
                            "_socket.send", "_socket.recv"]),
         Obligation("H-timeout", h_timeout, [dict(server=s) for s in servers],
-                   bounds="close(timeout=t), t a solver real in (0,10]; servers: silent / close after d / data then close after d,e / a whole frame every "
+                   bounds="close(timeout=t), t a solver real in [0,10] (0 = do not wait); servers: silent / close after d / data then close after d,e / a whole frame every "
                           "delta >= t/3 / end of stream after d; d,e,delta solver reals <= 30",
                    must_cover=["timeout-" + s for s in servers], kernel=["WebSocket.close"]),
     ]
